@@ -9,7 +9,8 @@ Specs: specs/cse/IRSem.tla   (terms, big-step evaluator, engine scoping rules, t
 Binding: TLC enumerates the DAGs; the harness builds each one from real hail.ir objects (a shared node
 index is ONE shared Python object), runs the real CSERenderer, reads the text back into a term table and
 TLC (CSECheck) decides scoping and value equality against the inlined DAG in all small environments.
-Expression-API programs (hl.if_else / map / filter / fold / struct / bind / array.aggregate ..) go the same way,
+Expression-API programs (hl.if_else / map / filter / fold / struct / bind / array.aggregate, Table.annotate with hl.scan.*,
+MatrixTable.annotate_rows / annotate_cols with hl.agg.* next to hl.scan.*) go the same way,
 their "inlined" side being the text of the plain (non-CSE) renderer.  The abstract renderer (CSEAlg) is
 model-checked on the same universes with the two repair flags MEASURED on the code under test; its
 counter-examples are replayed on the code and its outputs are compared with the code's outputs.
@@ -33,14 +34,15 @@ MANIFEST = {
                  "conformance (B3): TLC enumerates expression DAGs, the real CSERenderer renders each (built from real hail.ir "
                  "objects with shared Python objects, and through the expression API), TLC judges the parsed text",
     "text": "Exhaustive over all well-typed, well-scoped expression DAGs with sharing up to a stated node bound per operator "
-            "profile (arithmetic/If/Let, stream map/filter/fold, structs, aggregation contexts, mixed), plus TLC -simulate samples of "
+            "profile (arithmetic/If/Let, stream map/filter/fold, structs, aggregation and scan contexts incl. MatrixMapRows/Cols and "
+            "TableMapRows binding sites with one node shared between agg and scan arguments, mixed), plus TLC -simulate samples of "
             "larger DAGs and a fixed set of expression-API programs; every rendered text is parsed and judged by TLC (well-scoped "
-            "under the engine's eval/agg binding rules AND equal value to the inlined DAG in all small environments). The abstract "
+            "under the engine's eval/agg/scan binding rules AND equal value to the inlined DAG in all small environments). The abstract "
             "algorithm is checked against the same property on the same universes and its outputs are compared with the code's.",
     "note": "Trusts: TLC + CommunityModules; the IR-text reader and hail.ir builders in checks/_cse.py; the evaluator is the "
-            "specification (no engine offline): Int32 modulo 1001, missing values propagate, Sum/Count/Collect aggregators; scan "
-            "scope, randomness, effects and relational (table/matrix) nodes are outside the fragment. Larger DAGs are sampled, not "
-            "enumerated.",
+            "specification (no engine offline): Int32 modulo 1001, missing values propagate, Sum/Max/Count/Collect aggregators, a "
+            "scan = the aggregation over the previous elements; relational nodes only as binding sites over a fixed 3x2 range "
+            "(matrix) table; randomness and effects are outside the fragment. Larger DAGs are sampled, not enumerated.",
     "design_ref": "DESIGN.md section 5, C35",
 }
 
